@@ -49,6 +49,33 @@ func TraceOrderViolations(s *spec.Spec, p *Pred, o *Obs, workers int) (vs []Viol
 	return
 }
 
+// sameNameFan: k packages each define a target with one and the same name and different
+// latencies; one target depends directly on all of them (labels differ only in the package part)
+// and must start after the slowest has finished.
+func sameNameFan(r *rng.R) *spec.Spec {
+	s := &spec.Spec{Files: map[string]string{}}
+	pkgs := []string{"svc/auth", "svc/billing", "svc", "lib/x", ""}
+	rng.Shuffle(r, pkgs)
+	k := r.Range(2, 4)
+	name := rng.Pick(r, []string{"build", "lib", "x"}) // "x" is also the shorthand name of //lib/x
+	top := &spec.Target{Pkg: rng.Pick(r, []string{"app", "svc/auth/app"}), Name: "bundle", Salt: r.Word(4, 8), Outs: []spec.Out{{Kind: "file", Path: "bundle.out"}}}
+	for j := 0; j < k; j++ {
+		pre := ""
+		if pkgs[j] != "" {
+			pre = pkgs[j] + "/"
+		}
+		in := fmt.Sprintf("in%d.txt", j)
+		s.Files[pre+in] = r.Word(3, 20) + "\n"
+		t := &spec.Target{Pkg: pkgs[j], Name: name, Salt: r.Word(4, 8), Inputs: []string{in}, SleepMs: r.Range(10, 200),
+			Outs: []spec.Out{{Kind: "file", Path: fmt.Sprintf("o%d.out", j)}}}
+		s.Targets = append(s.Targets, t)
+		top.Deps = append(top.Deps, t.Label())
+	}
+	rng.Shuffle(r, top.Deps)
+	s.Targets = append(s.Targets, top)
+	return s
+}
+
 // ProcessSchedPart drives the real binary on latency-shaped graphs and checks order, once,
 // width and the dependency views recorded by the commands.
 func ProcessSchedPart(run *report.Run, st *Setup, n int, kinds map[string]bool) {
@@ -60,6 +87,11 @@ func ProcessSchedPart(run *report.Run, st *Setup, n int, kinds map[string]bool) 
 		s := spec.Gen(r, pf)
 		gcfg := randCfg(r)
 		gcfg.NumWorkers = r.Range(1, 8)
+		if i%6 == 5 {
+			s = sameNameFan(r)
+			gcfg.NumWorkers = r.Range(2, 6)
+			run.Count("process_cases_with_same_named_dependencies_in_several_packages", 1)
+		}
 		minimal := r.Chance(1, 2)
 		if minimal {
 			gcfg.LoadOutputs = "minimal"
